@@ -46,13 +46,21 @@ static void consumer(void *arg)
 
 static void reset(void)
 {
-	free(area);
-	free(rb);
-	area = malloc(len + 2 * GUARD);
+	/* warm restart: every other reset with an unchanged length re-initialises the SAME descriptor over the SAME memory,
+	 * whatever the previous execution left in them */
+	static unsigned warm;
+	static int plen = -1;
+	int same = area && rb && plen == len && (warm++ & 1);
+	plen = len;
+	if (!same) {
+		free(area);
+		free(rb);
+		area = malloc(len + 2 * GUARD);
+		rb = calloc(1, sizeof(*rb));
+	}
 	memset(area, 0xA5, len + 2 * GUARD);
 	ring = area + GUARD;
 	memset(ring, 0, len);
-	rb = calloc(1, sizeof(*rb));
 	vrt_reset();
 	vrt_clear_regions();
 	static unsigned nresets;
